@@ -7,6 +7,7 @@ import sys, os, json, subprocess, shutil, threading, queue, time
 
 VERIF = os.path.dirname(os.path.dirname(os.path.abspath(__file__)))   # the tree this script belongs to (a snapshot under vp run works on itself)
 args = sys.argv[1:]
+PID = os.getpid()   # scratch names are private to this run: two passes may run side by side
 N = 4
 if args[:1] == ['-j']:
     N = int(args[1]); args = args[2:]
@@ -23,7 +24,7 @@ def sh(cmd, **kw):
 
 
 def prepare(i):
-    wt, coq, ev, rp = f'/tmp/sp_wt{i}', f'/tmp/sp_coq{i}', f'/tmp/sp_ev{i}', f'/tmp/sp_rp{i}'
+    wt, coq, ev, rp = f'/tmp/sp_wt{PID}_{i}', f'/tmp/sp_coq{PID}_{i}', f'/tmp/sp_ev{PID}_{i}', f'/tmp/sp_rp{PID}_{i}'
     sh(['git', '-C', '/repo', 'worktree', 'remove', '--force', wt])
     for d in (coq, ev, rp):
         shutil.rmtree(d, ignore_errors=True)
@@ -33,7 +34,7 @@ def prepare(i):
 
 
 def worker(i):
-    wt, coq, ev, rp = f'/tmp/sp_wt{i}', f'/tmp/sp_coq{i}', f'/tmp/sp_ev{i}', f'/tmp/sp_rp{i}'
+    wt, coq, ev, rp = f'/tmp/sp_wt{PID}_{i}', f'/tmp/sp_coq{PID}_{i}', f'/tmp/sp_ev{PID}_{i}', f'/tmp/sp_rp{PID}_{i}'
     env = {**os.environ, 'AY_REPO': wt, 'VERIF_COQ_DIR': coq, 'VERIF_EVIDENCE_DIR': ev, 'VERIF_REPLAY_DIR': rp, 'VERIF_SEED': os.environ.get('VERIF_SEED', '12345')}
     try:
         while True:
